@@ -737,7 +737,7 @@ def run_scenarios(pid, scenarios, spec, res, use_serial=True):
             three = len(reqs) >= 3
             for prefix, result, fresh in sched.explore(
                     run, max_preemptions=3 if thorough and not three else 2,
-                    max_schedules=(2500 if thorough else
+                    max_schedules=(1500 if thorough else
                                    (160 if three else 220)),
                     rng=rng, random_extra=(60 if thorough else 6)):
                 n_sched += 1
